@@ -83,7 +83,7 @@ def run_tlc(work, module, cfg=None, constants=None, dump=True, workers=16, timeo
         lines.append("CHECK_DEADLOCK %s" % ("TRUE" if deadlock else "FALSE"))
         with open(os.path.join(work, cfg), "w") as f:
             f.write("\n".join(lines) + "\n")
-    cmd = ["java", "-XX:+UseParallelGC", "-Xmx24g", "-cp", TLA_JAR, "tlc2.TLC",
+    cmd = ["java", "-XX:+UseParallelGC", "-Xmx24g", "-Xss64m", "-cp", TLA_JAR, "tlc2.TLC",
            "-workers", str(workers), "-metadir", os.path.join(work, "meta_" + module),
            "-noGenerateSpecTE", "-config", cfg]
     dump_path = None
